@@ -13,6 +13,7 @@ def check(run):
     ec.run_family(run, 'C14-ragged', 'Q_C14rag', 'R_w2N' if not quick else 'R_q4', maxA=2 if quick else 3, opts={'warnings': True})
     ec.run_family(run, 'C14-ragged-incl-empty-record', 'Q_C14plain', 'R_w2N', maxA=3, opts={'warnings': True})
     ec.run_family(run, 'C14-join', 'Q_C14join', 'R_poison' if quick else 'R_w2', recsB='R_w2N' if not quick else 'R_q4', maxA=2, maxB=2, opts={'warnings': True})
+    ec.run_family(run, 'C14-aggregate-misuse', 'Q_C03bad', 'R_num', maxA=2)
     ec.run_family(run, 'C14-text', 'Q_C14text', 'R_poison', maxA=2, hdrmodes=(False, True))
     ec.run_family(run, 'C14-text-join', 'Q_C14textjoin', 'R_2x2', recsB='R_2x2', maxA=1, maxB=1, hdrmodes=(False, True))
     # warnings that belong to the CSV layer, each reported iff the condition occurred: None written to CSV and the delimiter inside
@@ -20,6 +21,7 @@ def check(run):
     # quoting (CsvReader / RefRead: bom and first-defective-line compared under every delivery schedule)
     from . import c10, c12
     c10.mc_and_replay(run, 'C14-none-and-separator-warnings', 'R_none', 2, ['simple', 'quoted', 'quoted_rfc'], 44, 0)
+    c10.mc_and_replay(run, 'C14-none-inside-list-cells', 'R_list', 1, ['simple', 'quoted'], 44, 0)
     c12.mc_and_replay(run, 'C14-bom-and-malformed-quoting', [97, 65279, 34, 10, 44], 3 if quick else 4, 'utf-8', policies=['quoted', 'quoted_rfc'], cmts=[0])
     run.exhaustive = True
 
